@@ -6,6 +6,9 @@ from riolib.sym import Sym, for_loops
 from riolib.effects import effects
 from .c12 import r12_1
 
+THOROUGH_CONFIGS = ['dot', 'router']
+
+
 MANIFEST = {
     "text": "Static decision of the tree mechanisms other than prefix splitting: traversal completeness of find/len/get (node regex tested, then every child visited, results unioned, no early exit), content conservation of insert/remove/retain as a def-to-drop must-use analysis (a stored value or subtree can be dropped only when proven empty / replaced by id / removed), anchoring constants of leaf and node regexes, provenance of the case flag of every regex built inside the tree, agreement of the lazy and compiled match, and replace-by-(pattern,id). Prefix-splitting soundness (a character-level loop over regex syntax) and equality with a linear scan for all histories are not decided.",
     "technique": "static analysis: path-sensitive must-use (def-to-drop) analysis, decision tables and provenance over MIR",
